@@ -361,8 +361,11 @@ def normalize_url(
             qsl = sorted(qsl, key=qsl_sort_key)
 
     # Dropping fragment if it's not routing
+    # NOTE: a routing fragment can be written with escapes ('#%2Fpage' is '#/page')
     if fragment and strip_fragment:
-        if strip_fragment is True or not should_strip_fragment(fragment):
+        if strip_fragment is True or not should_strip_fragment(
+            safely_unquote_fragment(fragment)
+        ):
             fragment = ""
 
     # Always dropping trailing slash with empty query & fragment
